@@ -838,6 +838,52 @@ func C10(c *core.Ctx) {
 		}
 	}
 
+	// ---- R10.15 one reassembly store per peer: the UDP listener reads every datagram that
+	// reached its socket before the connected socket of a new face existed — the fragments of
+	// one packet arrive back to back — so it creates a face for a datagram only on the edge
+	// asserting that no face for that remote endpoint exists yet; otherwise each fragment gets
+	// a link service (and a reassembly store) of its own and the packet is never delivered.
+	if run := c.Fn("R10.15", "fw/face", "UDPListener", "Run"); run != nil {
+		makes := core.FindCallsDeep(run, core.CalleeID{Pkg: "fw/face", Recv: "", Name: "MakeUnicastUDPTransport"})
+		if len(makes) == 0 {
+			c.Und("R10.15", "udp-listener-one-face-per-endpoint", p.Pos(run.Pos()), "the listener no longer creates transports with MakeUnicastUDPTransport")
+		}
+		for _, mk := range makes {
+			if len(mk.Common().Args) == 0 {
+				continue
+			}
+			remote := mk.Common().Args[0]
+			noFace := &core.Atom{Name: "no face for the endpoint yet", Match: func(cond ssa.Value) (int, int) {
+				op, x, y, ok := core.Cmp(cond)
+				if !ok || (op != token.EQL && op != token.NEQ) {
+					return 0, 0
+				}
+				if core.IsNilConst(x) {
+					x, y = y, x
+				}
+				if !core.IsNilConst(y) {
+					return 0, 0
+				}
+				v := core.Strip(x)
+				if ex, isEx := v.(*ssa.Extract); isEx {
+					v = ex.Tuple
+				}
+				cl, isCall := v.(*ssa.Call)
+				if !isCall {
+					return 0, 0
+				}
+				for _, a := range cl.Call.Args {
+					if core.Strip(a) == core.Strip(remote) || core.Same(a, remote) {
+						return core.Iff(op == token.EQL)
+					}
+				}
+				return 0, 0
+			}}
+			g := core.GateDeep(run, []ssa.Instruction{mk}, pos(noFace))
+			c.Decide(g.OK && g.PerLit[0] > 0, "R10.15", "udp-listener-one-face-per-endpoint", c.Pos(mk), "a transport is created only when a lookup of the remote endpoint found no face", "UDPListener.Run creates a transport and a link service for every datagram it reads, without looking for a face of that remote endpoint: datagrams already queued at the listener's socket when the first one created the face (the remaining fragments of the same packet) each get a link service of their own, the fragments are spread over several reassembly stores and the packet is delivered zero times")
+		}
+	}
+
 	// ---- R10.9 the number of fragments is not "quotient + 1": len/size + 1 pieces of at
 	// most size bytes include an EMPTY last piece whenever size divides len — the receiver
 	// drops an empty fragment as IDLE and never completes the message. (Only this known-wrong
